@@ -590,6 +590,13 @@ fn tiles3_cases(cx: &mut Cx, quick: bool, rng: &mut Rng) {
         ((8, 8, 8), &[4, 2]), ((8, 8, 16), &[8, 4, 2]), ((4, 4, 7), &[4, 2, 1]), ((7, 5, 6), &[4, 2]), ((16, 16, 12), &[8, 4]),
         ((8, 8, 12), &[8]), ((6, 6, 9), &[2, 1]), ((16, 8, 16), &[8, 2]), ((4, 4, 8), &[8, 4, 2]), ((12, 12, 8), &[4]),
     ];
+    // a solid that fills the whole grid and beyond (every tile full), and nothing at all (every tile empty), whatever the seed
+    for (k, (size, tl)) in confs.iter().enumerate() {
+        let mut ctx = Context::new();
+        let root = if k % 2 == 0 { shapes::sphere(&mut ctx, [0.0, 0.0, 0.0], 50.0) } else { shapes::sphere(&mut ctx, [40.0, 40.0, 40.0], 1.0) };
+        let b = Built { ctx, root, desc: if k % 2 == 0 { "everything".into() } else { "nothing".into() } };
+        tiles3::<VmFunction>(cx, &b, *size, tl, Matrix4::identity(), 0, &mut skipped);
+    }
     let n = if quick { 60 } else { 600 };
     for k in 0..n {
         let (size, tl) = confs[k % confs.len()];
